@@ -311,13 +311,13 @@ func (m *Model) IdentVerdict(id []byte) Verdict {
 			unsure = true
 		}
 	}
-	nchars := utf8.RuneCount(id)
-	if nchars > m.cfg.MaxIdentifierLength {
+	// the length unit is bytes: the CE specification limits identifiers in bytes and CBE stores a byte length
+	if len(id) > m.cfg.MaxIdentifierLength {
 		m.Reason = "identifier-too-long"
 		return Reject
 	}
-	if len(id) > m.cfg.MaxIdentifierLength || unsure {
-		return Either // length unit (bytes vs characters) is not fixed by the statement; or Unicode-version dependent character
+	if unsure {
+		return Either // Unicode-version dependent character
 	}
 	return Accept
 }
